@@ -172,7 +172,13 @@ fn fixed_companions() -> Vec<(String, String)> {
         ("a.txt".into(), "<a:{{ i }}{% for q in l %}{{ q }}{% endfor %}>".into()),
         (
             "b.html".into(),
-            "<base>{% block a %}base-a{% for q in l %}.{% endfor %}{% endblock %}{% block z %}z{% endblock %}</base>".into(),
+            // itself a child: `super()` in the main template's block reaches a block that calls
+            // `super()` again (two nested super levels below the block the budget may run out in)
+            "{% extends 'bb.html' %}{% block a %}{{ super() }}base-a{% for q in l %}.{% endfor %}{% endblock %}{% block z %}z{% endblock %}".into(),
+        ),
+        (
+            "bb.html".into(),
+            "<base>{% block a %}root-a{% for q in l %}:{{ q }}{% endfor %}{% endblock %}{% block z %}zz{% endblock %}</base>".into(),
         ),
         (
             "c.txt".into(),
